@@ -597,9 +597,6 @@ def random_program(env, rng, attr, nops, danger):
 def classify(prog, unwrapped_pairs):
     """canonical key of a (minimal) losing program"""
     for op in prog:
-        if op['op'] == 'call':
-            if op.get('boom') is not None or op.get('bad') is not None: return KEY_PARTIAL
-    for op in prog:
         if op['op'] == 'call' and 'k' in op and op['k'] is not None:
             vals = [dec(v) for v in op.get('vs', [])] + [dec(v) for _, v in op.get('ps', [])]
             im = {'extend': 'extend', 'iadd': 'iadd', 'setslice': 'setslice', 'setslice_step': 'setslice', 'update': 'update', 'ior': 'ior'}.get(op['n'])
@@ -635,8 +632,8 @@ def shrink(env, attr, init, prog, created=False):
 def report_result(ctx, env, attr, init, prog, res, facts, created=False, label='random'):
     if res.losses:
         small = shrink(env, attr, init, prog, created)
-        key = classify(small, facts['iterUnwrapped'])
         r2 = execute(env, attr, init, small, created)
+        key = KEY_PARTIAL if r2.partial else classify(small, facts['iterUnwrapped'])
         loss = (r2.losses or res.losses)[0]
         ctx.violation(WHAT.get(key, 'a change made in place to a Json/array value is missing after the commit'),
                       {'attr': attr, 'init': init, 'program': small, 'created_in_same_session': created, 'found_by': label},
@@ -703,14 +700,14 @@ def classify_methods(base, sample, battery):
 
 def check_tables(ctx):
     facts = gen_tracked.introspect()
-    ctx.extra['tracked_table'] = {k: facts[k] for k in ('listOv', 'dictOv', 'arrOv', 'makeTuple', 'iterUnwrapped', 'other')}
+    ctx.extra['tracked_table'] = {k: facts[k] for k in ('listOv', 'dictOv', 'arrOv', 'makeTuple', 'iterUnwrapped', 'notifyOnError', 'other')}
     if facts['errors']:
         ctx.divergence('probing the Tracked classes raised', facts['errors'])
     if not ctx.driver.ok:
         ctx.note('driver unavailable: table checks skipped'); return facts, None
     t = ctx.driver('C28', [{'op': 'tables'}])[0]
     # (1) the table compiled into the Lean build is the table of the classes as they are now
-    for k in ('listOv', 'dictOv', 'arrOv', 'listNotify', 'dictNotify', 'arrNotify', 'makeTuple', 'iterUnwrapped'):
+    for k in ('listOv', 'dictOv', 'arrOv', 'listNotify', 'dictNotify', 'arrNotify', 'makeTuple', 'iterUnwrapped', 'notifyOnError'):
         ctx.case(['table', k], kind='table:fresh-vs-compiled')
         if facts[k] != t[k]:
             ctx.divergence('Gen/TrackedTable.lean (compiled) differs from the classes as they are now: %s' % k, k, model=t[k], impl=facts[k])
